@@ -28,6 +28,7 @@ RULE = (
     "rewire once (re-applied by the monitor on an independent copy). key = per pair (key class -> value class) x "
     "operation x outcome; non-trivial = a key is a synonym, or a value is already owned (own synonym / own canonical / "
     "other record), or keys and values intersect."
+    ' The at-scale case includes a record with 31-300 URI-prefix synonyms remapped / rewired onto one of its own synonyms (round 21).'
 )
 ASSUMPTIONS = ["only injective mappings are in the property's domain; others are counted out of domain"]
 
